@@ -247,6 +247,54 @@ m("C13-walkerr-ignored", "C13", [(DIRS,
   "\t\t\tif err != nil {\n\t\t\t\treturn scanFn(path, priority, nil, err)\n\t\t\t}\n\n\t\t\tspec, err = ReadSpec(path, priority)",
   "\t\t\tif err != nil {\n\t\t\t\treturn nil\n\t\t\t}\n\n\t\t\tspec, err = ReadSpec(path, priority)")], "a Spec file the walk could not stat is skipped silently")
 
+# ---------------------------------------------------------------- C05
+K8S = "internal/validation/k8s/objectmeta.go"
+m("C05-revert-D3-mounts", "C05", [(EDITS,
+  "\t\tif m == nil {\n\t\t\treturn errors.New(\"invalid (nil) mount\")\n\t\t}\n", "")], "revert of fix D3 for mounts: a null mount entry is dereferenced")
+m("C05-mount-hostpath-only", "C05", [(EDITS,
+  "\tif m.ContainerPath == \"\" {\n\t\treturn errors.New(\"invalid mount, empty container path\")\n\t}\n", "")], "mounts without a container path accepted")
+m("C05-devtype-extra", "C05", [(EDITS,
+  "\t\t\"p\": {},\n\t}\n", "\t\t\"p\": {},\n\t\t\"s\": {},\n\t}\n")], "device type 's' accepted")
+m("C05-perms-first-only", "C05", [(EDITS,
+  "\t\t\treturn fmt.Errorf(\"device %q: invalid permissions %q\",\n\t\t\t\td.Path, d.Permissions)\n\t\t}\n\t}",
+  "\t\t\treturn fmt.Errorf(\"device %q: invalid permissions %q\",\n\t\t\t\td.Path, d.Permissions)\n\t\t}\n\t\tbreak\n\t}")], "only the first permission character is checked")
+m("C05-hook-path-optional", "C05", [(EDITS,
+  "\tif h.Path == \"\" {\n\t\treturn fmt.Errorf(\"invalid hook %q with empty path\", h.HookName)\n\t}\n", "")], "hooks without a path accepted")
+m("C05-annot-size-dropped", "C05", [(K8S,
+  "\tif err := ValidateAnnotationsSize(annotations); err != nil {\n\t\terrs = append(errs, fmt.Errorf(\"%v is too long: %v\", path, err))\n\t}\n", "")], "annotation size limit not enforced")
+m("C05-duplicate-devices", "C05", [(SPEC,
+  "\t\tif _, conflict := devices[d.Name]; conflict {\n\t\t\treturn nil, fmt.Errorf(\"invalid spec, multiple device %q\", d.Name)\n\t\t}\n", "")], "duplicate device names accepted (last wins)")
+m("C05-env-empty-name", "C05", [(EDITS,
+  "\t\tif strings.IndexByte(v, byte('=')) <= 0 {",
+  "\t\tif strings.IndexByte(v, byte('=')) < 0 {")], "env entries '=value' accepted")
+m("C05-device-empty-edits", "C05", [("pkg/cdi/device.go",
+  "\tif edits.isEmpty() {\n\t\treturn fmt.Errorf(\"invalid device, empty device edits\")\n\t}\n", "")], "devices without edits accepted")
+m("C05-skip-last-mount", "C05", [(EDITS,
+  "\tfor _, m := range e.Mounts {\n\t\tif m == nil {",
+  "\tfor i, m := range e.Mounts {\n\t\tif i > 0 && i == len(e.Mounts)-1 {\n\t\t\tbreak\n\t\t}\n\t\tif m == nil {")], "the last of several mounts is not validated")
+m("C05-rdt-dot", "C05", [(EDITS,
+  "len(i.ClosID) >= 4096 || i.ClosID == \".\" || i.ClosID == \"..\"",
+  "len(i.ClosID) >= 4096 || i.ClosID == \"..\"")], "RDT class id '.' accepted")
+m("C05-write-unvalidated", "C05", [(SPEC,
+  "\terr = validateSpec(s.Spec)\n\tif err != nil {\n\t\treturn err\n\t}\n\n\tif filepath.Ext(s.path) == \".yaml\" {",
+  "\tif filepath.Ext(s.path) == \".yaml\" {")], "writer no longer consults the external validator")
+m("C05-annot-keys-first-error", "C05", [(K8S,
+  "\t\tfor _, msg := range IsQualifiedName(strings.ToLower(k)) {\n\t\t\terrs = append(errs, fmt.Errorf(\"%v.%v is invalid: %v\", path, k, msg))\n\t\t}",
+  "\t\tif len(k) > 0 && k[0] == '_' {\n\t\t\tcontinue\n\t\t}\n\t\tfor _, msg := range IsQualifiedName(strings.ToLower(k)) {\n\t\t\terrs = append(errs, fmt.Errorf(\"%v.%v is invalid: %v\", path, k, msg))\n\t\t}")], "annotation keys starting with '_' escape validation")
+m("C05-vendor-from-annotations", "C05", [(SPEC,
+  "\tspec.vendor, spec.class = parser.ParseQualifier(spec.Kind)",
+  "\tspec.vendor, spec.class = parser.ParseQualifier(strings.TrimSpace(spec.Kind))")], "kind is trimmed before splitting: ' vendor/class' accepted")
+b("benign-C05-validate-order", ["C05"], [(SPEC,
+  "\tif err := parser.ValidateVendorName(s.vendor); err != nil {\n\t\treturn nil, err\n\t}\n\tif err := parser.ValidateClassName(s.class); err != nil {\n\t\treturn nil, err\n\t}\n",
+  "\tif err := parser.ValidateClassName(s.class); err != nil {\n\t\treturn nil, err\n\t}\n\tif err := parser.ValidateVendorName(s.vendor); err != nil {\n\t\treturn nil, err\n\t}\n")], "validators called in another order")
+b("benign-C05-mount-single-if", ["C05"], [(EDITS,
+  "\tif m.HostPath == \"\" {\n\t\treturn errors.New(\"invalid mount, empty host path\")\n\t}\n\tif m.ContainerPath == \"\" {\n\t\treturn errors.New(\"invalid mount, empty container path\")\n\t}",
+  "\tif len(m.HostPath) == 0 {\n\t\treturn errors.New(\"invalid mount, empty host path\")\n\t}\n\tif len(m.ContainerPath) == 0 {\n\t\treturn errors.New(\"invalid mount, empty container path\")\n\t}")], "len(x)==0 instead of x==\"\"")
+
+m("C05-skip-some-hooks", "C05", [(EDITS,
+  "\tfor _, h := range e.Hooks {\n\t\tif h == nil {\n\t\t\treturn errors.New(\"invalid (nil) hook\")\n\t\t}\n",
+  "\tfor _, h := range e.Hooks {\n\t\tif h == nil {\n\t\t\treturn errors.New(\"invalid (nil) hook\")\n\t\t}\n\t\tif h.HookName == PoststopHook && len(h.Args) == 0 {\n\t\t\tcontinue\n\t\t}\n")], "poststop hooks without args skip validation (two cooperating conditions)")
+
 
 def emit():
     os.makedirs(os.path.join(VERIF, "mutants"), exist_ok=True)
